@@ -17,6 +17,7 @@ NEGATIVE = [
     ("Engine_neg_lasterror.cfg", "invariant", "FirstError"),        # Run keeps collecting and returns the last error
     ("Engine_neg_waitfirst.cfg", "invariant", "WaitAfterAll"),      # only the first pool registered in the WaitGroup
     ("Engine_neg_noengselect.cfg", "invariant", "CancelPrompt"),    # Run's loop without `case <-ctx.Done()` (seeded C05-7)
+    ("Engine_neg_pendingbyid.cfg", "invariant", "AllNil"),          # Run keeps a SET of pending pool ids; pools sharing an id (seeded C05-10)
     ("Engine_neg_callerctx_live.cfg", "temporal", ""),              # thorough only
     ("Engine_neg_noengselect_live.cfg", "temporal", ""),            # thorough only
 ]
